@@ -89,7 +89,15 @@ static void check_all(void) {
 	VP_OBSERVE(len);
 }
 enum { Q_EMPLACE, Q_EMPLACE_COPY, Q_POP, Q_SET_FRONT, Q_REBUILD, Q_NOPS };
+#ifdef __CPROVER__
+/* --slice-formula drops assignments no assertion depends on — including the input log the runner reads counterexamples from.
+ * This (always reachable) witness depends on every logged input and so keeps the log in the formula and in every trace. */
+static void c13_keep_inputs(void) { uint64_t h = 0; for(int i = 0; i < vp_in_n; i++) h += vp_in_log[i]; VP_WITNESS(h != 0x5EEDu, "input log kept in the sliced formula"); }
+#else
+static void c13_keep_inputs(void) { }
+#endif
 static void finish(void) {
+	c13_keep_inputs();
 	VP_WITNESS(nops < P + K, "prefix and K solver-chosen operations executed");
 	/* non-vacuity per operation: each operation is the last one of some complete history */
 	VP_WITNESS(last_op != Q_EMPLACE, "a history ending in emplace_back(args) runs to the end");
